@@ -517,6 +517,96 @@ def _parse_any(a, pre):
     return r
 
 
+# ---------------------------------------------------------------- C08 / C18
+def fmt_string(items):
+    out = ""
+    for it in items:
+        if it[0] == "tok":
+            out += it[1]
+        elif it[0] == "lit":
+            out += proj.uncps(it[1])
+        else:
+            out += "[" + proj.uncps(it[1]) + "]"
+    return out
+
+
+@op("format")
+def _format(a, pre):
+    x = pre[0]
+    fmt = fmt_string(a["items"])
+    a["fmt"] = proj.cps(fmt)
+    nm = x.timezone_name if hasattr(x, "timezone_name") else None
+    a["zname"] = proj.cps(nm or "")
+    m = a["method"]
+    if m == "format":
+        return x.format(fmt, locale=a["locale"])
+    return getattr(x, m)()
+
+
+@op("from_format")
+def _from_format(a, pre):
+    p = P()
+    x = pre[0]
+    fmt = fmt_string(a["items"])
+    a["fmt"] = proj.cps(fmt)
+    a["zname"] = proj.cps(x.timezone_name or "")
+    text = x.format(fmt, locale=a["locale"])
+    if a["kind"] == "mismatch":
+        bad = a["mutate"]
+        text2 = text[:bad % (len(text) + 1)] + "~" + text[bad % (len(text) + 1):]
+    else:
+        text2 = text
+    now = p.DateTime(*a["now"], tzinfo=p.UTC)
+    old = p.now
+    p.now = lambda tz=None: now if tz is None else now.in_timezone(tz)
+    try:
+        try:
+            back = p.from_format(text2, fmt, locale=a["locale"]) if a["locale"] != "en" or a.get("pass_locale") \
+                else p.from_format(text2, fmt)
+            back = enc(back)
+        except Exception as e:  # noqa: BLE001
+            back = enc(e)
+    finally:
+        p.now = old
+    return {"k": "ff", "text": proj.cps(text), "back": back}
+
+
+@op("humanize")
+def _humanize(a, pre):
+    p = P()
+    x, y = pre
+    en = a["entry"]
+    iv_probe = p.Interval(x, y, absolute=True)
+    a["comps"] = [abs(int(v)) for v in (iv_probe.years, iv_probe.months, iv_probe.weeks, iv_probe.remaining_days, iv_probe.hours,
+                                         iv_probe.minutes, iv_probe.remaining_seconds)]
+    a["invert"] = bool(iv_probe.invert)
+    if en == "format_diff":
+        return p.format_diff(x.diff(y), a["is_now"], a["absolute"], a["locale"])
+    if en == "diff_for_humans":
+        return x.diff_for_humans(y, absolute=a["absolute"], locale=a["locale"])
+    if en == "diff_for_humans_now":
+        old = p.DateTime.now
+        try:
+            p.DateTime.now = classmethod(lambda cls, tz=None: y if tz is None else y.in_timezone(tz))
+            return x.diff_for_humans(absolute=a["absolute"], locale=a["locale"])
+        finally:
+            p.DateTime.now = old
+    raise ValueError(en)
+
+
+@op("in_words")
+def _in_words(a, pre):
+    p = P()
+    en = a["entry"]
+    sep = proj.uncps(a["sep"])
+    if en == "duration":
+        d = pre[0]
+    else:
+        d = p.Interval(pre[0], pre[1])
+    a["comps"] = [int(v) for v in (d.years, d.months, d.weeks, d.remaining_days, d.hours, d.minutes, d.remaining_seconds)]
+    return d.in_words(locale=a["locale"], separator=sep)
+
+
 # ---------------------------------------------------------------- execution
 class HarnessTimeout(Exception):
     """the call did not return within OP_TIMEOUT seconds (observed as non-termination)"""
